@@ -1,8 +1,10 @@
 // C06 — Truncated or damaged PBF input ends in an error after a correct prefix.
 //
 // Fault enumeration (Engine B, crash-isolated worker processes):
-//  (a) every byte offset of every base file as a cut point x decoder counts;
-//  (b) every damage class of a catalogue x every block position x decoder counts.
+//
+//	(a) every byte offset of every base file as a cut point x decoder counts;
+//	(b) every damage class of a catalogue x every block position x decoder counts.
+//
 // Oracle: delivered objects == objects of the intact blocks before the fault;
 // Err()==nil iff a cut is on a block boundary (never nil for damage); the
 // process neither crashes nor hangs.
@@ -11,6 +13,8 @@ package main
 import (
 	"fmt"
 	"sort"
+	"strconv"
+	"strings"
 
 	"github.com/paulmach/osm"
 
@@ -97,6 +101,7 @@ func catalogue() []damage {
 		{"blob:zlib-truncated", true, true, func(fb *fileBlock) { fb.blob.Raw, fb.blob.TruncateZlib = false, true }},
 		{"blob:rawsize-too-small", true, true, func(fb *fileBlock) { fb.blob.Raw, fb.blob.RawSizeDelta = false, -3 }},
 		{"blob:rawsize-too-large", true, true, func(fb *fileBlock) { fb.blob.Raw, fb.blob.RawSizeDelta = false, 3 }},
+		{"blob:zlib-bad-checksum", true, true, func(fb *fileBlock) { fb.blob.Raw, fb.blob.BadChecksum = false, true }},
 		{"type:osmheader-again", false, true, func(fb *fileBlock) {
 			fb.typ = "OSMHeader"
 			fb.payload = pbfgen.StdHeader().Bytes()
@@ -140,7 +145,7 @@ func main() {
 			procsCut = []int{1, 2, 3, 8}
 			procsDmg = []int{1, 2, 3, 8}
 		}
-		r.Rule(fmt.Sprintf("(a) every byte offset 0..len of base files %v as a cut point x procs %v; (b) every damage class of the catalogue x every applicable file-block position x procs %v, files zlib and noheader; "+
+		r.Rule(fmt.Sprintf("(a) every byte offset 0..len of base files %v as a cut point x procs %v; (b) every damage class of the catalogue (plus every wrong raw_size value 0..len+2) x every applicable file-block position x procs %v, files zlib and noheader; "+
 			"non-trivial = the fault is not at offset 0 / not in the first block, so a non-empty correct prefix must be delivered, or the cut is exactly on a block boundary; distinct = the case tuple", baseNames, procsCut, procsDmg))
 		r.Assume("block boundaries and per-block expected objects come from gen/pbfgen; each case runs in a worker process so that a panic in a library goroutine is attributed to its case")
 		r.Assume("not judged: id/type columns longer than the other columns, way lat/lon columns shorter than refs (silently tolerated by the format's readers)")
@@ -178,6 +183,17 @@ func main() {
 						}
 					}
 				}
+				// every wrong value of raw_size for every block (0 .. payload length + 2)
+				for pos := range fbs {
+					for k := 0; k <= len(fbs[pos].payload)+2; k++ {
+						if k == len(fbs[pos].payload) {
+							continue
+						}
+						for _, p := range procsDmg {
+							cases = append(cases, fcase{Kind: "damage", File: bn, Damage: fmt.Sprintf("blob:rawsize=%d", k), Pos: pos, Procs: p})
+						}
+					}
+				}
 			}
 		}
 		names := []string{}
@@ -211,7 +227,11 @@ func key(c fcase, clause string) string {
 	if c.Pos == 0 {
 		where = "first-block"
 	}
-	return clause + "/" + c.Damage + "/" + where
+	dmg := c.Damage
+	if strings.HasPrefix(dmg, "blob:rawsize=") {
+		dmg = "blob:rawsize-wrong"
+	}
+	return clause + "/" + dmg + "/" + where
 }
 
 func cutClass(c fcase) string {
@@ -273,6 +293,13 @@ func runCase(r *kit.Run, c fcase, cat []damage) {
 			if cat[i].name == c.Damage {
 				d = &cat[i]
 			}
+		}
+		if strings.HasPrefix(c.Damage, "blob:rawsize=") {
+			// every wrong uncompressed size, not only +-3
+			k, _ := strconv.Atoi(strings.TrimPrefix(c.Damage, "blob:rawsize="))
+			d = &damage{name: c.Damage, apply: func(fb *fileBlock) {
+				fb.blob.Raw, fb.blob.RawSizeDelta = false, int64(k-len(fb.payload))
+			}}
 		}
 		if d == nil {
 			kit.Fatalf("unknown damage %q", c.Damage)
